@@ -40,8 +40,8 @@ Print Assumptions C03_udp_reorder_refuted.
 (* (d) UDP, loss-free in-order network, the peer's application has not read yet and its receive window
    (segmentTreeCapacity, here scaled down to 2) is exhausted: the datagram is dropped on arrival and never retransmitted *)
 Theorem C03_udp_receive_window_refuted :
-  exists sched st, run (mkCfg UDP 3 close_wait_iterations true false 16 0 2) init sched = Some st
-                   /\ clean_truncation (mkCfg UDP 3 close_wait_iterations true false 16 0 2) st /\ discarded st = false
+  exists sched st, run (mkCfg UDP 3 close_wait_iterations true false 16 0 2 true) init sched = Some st
+                   /\ clean_truncation (mkCfg UDP 3 close_wait_iterations true false 16 0 2 true) st /\ discarded st = false
                    /\ gap st = true /\ read_so_far st = [0; 1].
 Proof. exact udp_receive_window_refuted. Qed.
 Print Assumptions C03_udp_receive_window_refuted.
@@ -165,3 +165,42 @@ Theorem C03_handoff_bypass_refuted :
                               hrun (current_cfg TCP 2 0 0) 2 (init, []) (evs ++ [HInput; HInput]) = Some (st2, []) /\ gap st2 = false /\ rqueue st2 = [0; 1]).
 Proof. exact handoff_bypass_refuted. Qed.
 Print Assumptions C03_handoff_bypass_refuted.
+
+(* ---- lock discipline of the TCP output loop (runOutputOnceStream holds oLock from its first DeleteMin until the queue is empty).
+   Model: OStart takes oLock, ODeq = DeleteMin (the segment is "in flight" inside output()), OOut = the write completes (blocked while
+   the connection does not take bytes); CForce = the fallback of closeWithError after the bounded wait; it needs oLock and, as it goes
+   through the same underlay, nothing in flight.  c_lockdrain = false is the variant that gives oLock back right after DeleteMin. *)
+
+(* the code, every schedule: while a segment is between DeleteMin and the completion of its output(), oLock is held and the fallback
+   is not enabled: it can neither overtake that segment nor drop what was queued behind it before Close *)
+Theorem C03_tcp_close_fallback_never_overtakes_inflight : forall c sched st,
+  is_tcp c = true -> c_lockdrain c = true -> run c init sched = Some st -> inflight st <> None ->
+  olock st = true /\ step c st CForce = None.
+Proof. exact tcp_close_fallback_never_overtakes_inflight. Qed.
+Print Assumptions C03_tcp_close_fallback_never_overtakes_inflight.
+
+(* TCP, every schedule: the fallback is the only step that discards data; the regular end of the wait (lastSend >= closeRequestSeq)
+   never does *)
+Theorem C03_tcp_only_fallback_discards : forall c sched st ch st',
+  is_tcp c = true -> run c init sched = Some st -> step c st ch = Some st' -> ch <> CForce -> discarded st' = discarded st.
+Proof. exact tcp_only_fallback_discards. Qed.
+Print Assumptions C03_tcp_only_fallback_discards.
+
+(* the variant: segment 0 sits in a stalled write for the whole wait with 1 and 2 queued behind it; when the stall ends the fallback
+   gets in before the next DeleteMin.  Nothing is lost on the wire; the peer reads [0] and a clean EOF.
+   Relation to C03_backpressure_tcp_starved_refuted: THAT schedule contains no OStart/ODeq at all between Close and the expiry of the
+   wait (the notified output goroutine does not run for a whole second); it is a limit of the model on the code as it is, needs no
+   stall, and no driver run has shown it.  THIS schedule has the loop inside output() (ODeq done, OOut pending) when the wait expires;
+   C03_tcp_close_fallback_never_overtakes_inflight excludes it for the code and it exists only with c_lockdrain = false. *)
+Theorem C03_tcp_unlocked_output_refuted :
+  exists sched st, run (mkCfg TCP 3 close_wait_iterations true false 0 0 segment_tree_capacity false) init sched = Some st
+                   /\ clean_truncation (mkCfg TCP 3 close_wait_iterations true false 0 0 segment_tree_capacity false) st
+                   /\ discarded st = true /\ tcpnet st = [] /\ read_so_far st = [0] /\ ticks st = close_wait_iterations.
+Proof. exact tcp_unlocked_output_refuted. Qed.
+Print Assumptions C03_tcp_unlocked_output_refuted.
+
+Example C03_tcp_stall_now :
+  (exists st, run (current_cfg TCP 3 0 0) init ([CWrite; CWrite; CWrite; CClose; OStart; ODeq] ++ repeat_choice CTick (N.to_nat close_wait_iterations) ++ [OOut]) = Some st
+              /\ cph st = CExpired /\ queue st = [Data 1; Data 2; CloseReq 3] /\ step (current_cfg TCP 3 0 0) st CForce = None) /\
+  (exists st, run (current_cfg TCP 3 0 0) init w_tcp_stall_now = Some st /\ rd st = REof /\ complete (current_cfg TCP 3 0 0) st /\ discarded st = false).
+Proof. exact tcp_stall_now_example. Qed.
